@@ -21,7 +21,7 @@ pub const EMBEDDED_GRAMMAR_SHA_NOTE: &str = "grammar is read from /repo/README.m
 pub fn grammar() -> &'static Grammar {
     static G: OnceLock<Grammar> = OnceLock::new();
     G.get_or_init(|| {
-        let readme = std::fs::read_to_string("/repo/README.md").expect("/repo/README.md must be readable");
+        let readme = std::fs::read_to_string(format!("{}/README.md", crate::report::repo_dir())).expect("/repo/README.md must be readable");
         let text = peg::extract_grammar(&readme).expect("README.md must contain a ```pest block");
         Grammar::parse(&text).expect("the README grammar must be parseable")
     })
